@@ -79,10 +79,19 @@ class Driver:
             self.host = Host(controller_sink=self.sink)
             self.host.ready = True
             self.q = DataPacketQueue(27, n, self._on_send_packet)
-            self.host.le_acl_packet_queue = self.q
-            self._connect = lambda h: self.host.connections.__setitem__(
-                h, Connection(self.host, h, hci.Address('F0:F1:F2:F3:F4:%02X' % h), PhysicalTransport.LE)
-            )
+            if via_host == 'iso':
+                # the handles are CIS links sharing the isochronous buffer pool; an idle ACL connection exists too
+                from bumble.host import IsoLink
+
+                self.host.iso_packet_queue = self.q
+                self.host.le_acl_packet_queue = DataPacketQueue(27, 1, lambda p: None)
+                self.host.connections[0x0777] = Connection(self.host, 0x0777, hci.Address('F0:F1:F2:F3:F4:77'), PhysicalTransport.LE)
+                self._connect = lambda h: self.host.cis_links.__setitem__(h, IsoLink(handle=h, packet_queue=self.q))
+            else:
+                self.host.le_acl_packet_queue = self.q
+                self._connect = lambda h: self.host.connections.__setitem__(
+                    h, Connection(self.host, h, hci.Address('F0:F1:F2:F3:F4:%02X' % h), PhysicalTransport.LE)
+                )
             for h in (A, B):
                 self._connect(h)
         else:
@@ -94,6 +103,9 @@ class Driver:
 
     def _on_send_packet(self, packet):
         # host path: packet is a real HCI_AclDataPacket; tag is carried in the payload
+        if self.via_host == 'iso':
+            self.sent.append((packet.connection_handle, int.from_bytes(packet.iso_sdu_fragment[:2], 'big')))
+            return
         data = packet.data
         self.sent.append((packet.connection_handle, int.from_bytes(data[4:6], 'big')))
 
@@ -107,7 +119,12 @@ class Driver:
             m.enq[h] += 1
             m.status[(h, seq)] = 'waiting'
             m.order.append((h, seq))
-            if self.via_host:
+            if self.via_host == 'iso':
+                if h not in self.host.cis_links:
+                    self._connect(h)
+                # one SDU of 2 bytes -> exactly one ISO fragment
+                self.host.send_iso_sdu(h, seq.to_bytes(2, 'big'))
+            elif self.via_host:
                 if h not in self.host.connections:
                     # the handle was disconnected earlier: a new connection gets the same handle
                     self._connect(h)
@@ -298,7 +315,7 @@ def dispose(loop):
 
 def w_queue(arg):
     n, handles, depth, via_host, first_ops = arg
-    st = core.Stats('queue_host' if via_host else 'queue_bfs')
+    st = core.Stats(('queue_iso' if via_host == 'iso' else 'queue_host') if via_host else 'queue_bfs')
     seen = set()
     trans = set()
     frontier = collections.deque()
@@ -312,7 +329,7 @@ def w_queue(arg):
             st.evaluations += 1
             maxd = max(maxd, len(hist))
             if v:
-                st.violation(v[0] if not via_host else 'host_' + v[0], sig_of(v, hist, n), f'N={n} history={fmt(hist)}: {v[1]}', {'n': n, 'hist': hist, 'via_host': via_host, 'close': False})
+                st.violation(v[0] if not via_host else ('iso_' if via_host == 'iso' else 'host_') + v[0], sig_of(v, hist, n), f'N={n} history={fmt(hist)}: {v[1]}', {'n': n, 'hist': hist, 'via_host': via_host, 'close': False})
                 continue
             k = drv.canon()
             if k in seen:
@@ -326,7 +343,7 @@ def w_queue(arg):
             # closing phase (every distinct state is closed once)
             v2 = drv.close()
             if v2:
-                st.violation(v2[0] if not via_host else 'host_' + v2[0], sig_of(v2, hist, n), f'N={n} history={fmt(hist)} then completing everything: {v2[1]}', {'n': n, 'hist': hist, 'via_host': via_host, 'close': True})
+                st.violation(v2[0] if not via_host else ('iso_' if via_host == 'iso' else 'host_') + v2[0], sig_of(v2, hist, n), f'N={n} history={fmt(hist)} then completing everything: {v2[1]}', {'n': n, 'hist': hist, 'via_host': via_host, 'close': True})
             st.count('early_drain_returns', drv.early_drain)
             st.count('counter_anomalies_after_overreport', drv.counter_anomalies)
         finally:
@@ -510,10 +527,13 @@ def run(ctx: core.Context) -> int:
     for n in (1, 2):
         for f in first_level(n, [A, B], True):
             items.append((n, [A, B], hdepth, True, [f]))
+    for n in (1, 2):
+        for f in first_level(n, [A, B], 'iso'):
+            items.append((n, [A, B], hdepth - 1 if quick else hdepth, 'iso', [f]))
     res = core.pmap(w_queue, items, ctx.jobs)
     states = trans = 0
     for it, r in zip(items, res):
-        st = ctx.sub('queue_host' if it[3] else 'queue_bfs')
+        st = ctx.sub(('queue_iso' if it[3] == 'iso' else 'queue_host') if it[3] else 'queue_bfs')
         st.merge(r)
     pitems = []
     for threshold in (0, 2):
@@ -523,7 +543,7 @@ def run(ctx: core.Context) -> int:
         ctx.sub('pipe').merge(r)
     for r in core.pmap(w_pools, core.split(pool_configs(quick), ctx.jobs), ctx.jobs):
         ctx.sub('pools').merge(r)
-    for name in ('queue_bfs', 'queue_host', 'pipe'):
+    for name in ('queue_bfs', 'queue_host', 'queue_iso', 'pipe'):
         s = ctx.sub(name)
         states += len(s.sets.get('states', ()))
         trans += len(s.sets.get('transitions', ()))
@@ -534,7 +554,7 @@ def run(ctx: core.Context) -> int:
         rule=(
             'BFS over operation histories (enqueue per connection, completion reports with counts {0,1,2,exact,exact+1} per '
             'connection and for an unknown handle, flush, drain) on the real DataPacketQueue for buffer counts 1..3 and 2-3 '
-            'connections, and the same alphabet injected as HCI events into a real Host; BFS over write/pause/resume/loop-step/'
+            'connections, and the same alphabet injected as HCI events into a real Host (LE ACL connections; and CIS links on the isochronous pool, queue_iso); BFS over write/pause/resume/loop-step/'
             'sink-drain-completion histories of the real FlowControlAsyncPipe; pools: a real Host that learnt its buffer pools from a real Controller (dedicated LE pool or one pool shared with BR/EDR, sizes 1..3) with an LE and a BR/EDR connection sending at the same time. States are deduplicated by a canonical key of '
             '(reference-model state, implementation fields); distinct_nontrivial = distinct canonical states; every distinct '
             'state is additionally run to completion (closing phase). Note: BFS partitions by first operation, so a state '
